@@ -50,6 +50,11 @@ FULL = [
     ('fail', "start = 'a' !() | 'a' 'b' ;", ['a b', 'a']),
     ('multiline-token', "start = '''ab''' \"\"\"cd\"\"\" $ ;", ['ab cd', 'ab']),
     ('unicode', "start = 'é' '世' /[α-ω]+/ $ ;", ['é 世 αβ', 'é']),
+    # shapes whose pretty-printed text strains the grammar of grammars: a parameterised first rule right after the keyword table, a pattern
+    # made of blanks, a constant whose text has a line break, a base rule replaced by @override after a rule was derived from it
+    ('keywords-then-parameterised-rule', "@@keyword :: if then\n@@nameguard :: True\n\nstart[Start] = /\\w+/ $ ;", ['ab', 'if', 'a b']),
+    ('pattern-blanks', "@@whitespace :: None\nstart = / +/ 'a' /b /  $ ;", [' ab ', 'ab ', '  ab ', ' ab']),
+    ('constant-newline', "start = k:`'a\\nb'` 'x' ;", ['x', 'y']),
     ('style-like-tokens', "start = '\\\\e[1m' 'f{x}' `f{{y}}` '{0:>4}' $ ;", ['\\e[1m f{x} {0:>4}', 'f{x}']),
 ]
 
